@@ -125,7 +125,7 @@ func (c cache) place(
 		_, err = placerFn(absShelf, fs.MustAbsolutePath(destination), true)
 		return err
 	default:
-		panic("unreachable")
+		return Errorf(rio.ErrUsage, "unknown placement mode %q", placementMode)
 	}
 }
 
